@@ -67,6 +67,9 @@ class Ctx:
         self.uses = 0
         self.poke_absorbed = 0
         self.token_owners: List[Any] = []  # owner of every token emitted, in order
+        self.iter_asked: dict = {}  # source id -> uses of every source (by id) so far when it was FIRST asked for an iterator
+        self.srcs: List[Any] = []  # the source states of the running differential side
+        self.thrown = False  # drive() has thrown its cancellation into the coroutine
 
     def ev(self, *event: Any) -> None:
         self.log.append(event)
@@ -210,6 +213,8 @@ def drive(coro: Any, cancel_at: Optional[int] = None, cancel_exc: Optional[BaseE
         try:
             if throw is not None:
                 exc, throw = throw, None
+                if cancel_at is not None and n == cancel_at:
+                    ctx.thrown = True
                 surfaced = coro.throw(exc)
             else:
                 surfaced = coro.send(send)
